@@ -532,10 +532,13 @@ class ConditionEvaluator(ast.NodeVisitor):
                     if result.left_varmap is None:
                         # Condition returns False. Earlier operands that matched
                         # only partially also lead to the negative branch.
+                        right_varmap = result.right_varmap
+                        if right_varmap is not None:
+                            right_varmap = unite_varmaps(
+                                [*remaining_varmaps, right_varmap]
+                            )
                         return ConditionReturn(
-                            right_varmap=unite_varmaps(
-                                [*remaining_varmaps, result.right_varmap]
-                            ),
+                            right_varmap=right_varmap,
                             condition=ConditionList(active),
                         )
                     elif result.right_varmap is None:
@@ -561,10 +564,13 @@ class ConditionEvaluator(ast.NodeVisitor):
                     elif result.right_varmap is None:
                         # Condition returns True. Earlier operands that matched
                         # only partially also lead to the positive branch.
+                        left_varmap = result.left_varmap
+                        if left_varmap is not None:
+                            left_varmap = unite_varmaps(
+                                [*remaining_varmaps, left_varmap]
+                            )
                         return ConditionReturn(
-                            left_varmap=unite_varmaps(
-                                [*remaining_varmaps, result.left_varmap]
-                            ),
+                            left_varmap=left_varmap,
                             condition=ConditionList(active),
                         )
                     else:
